@@ -297,7 +297,7 @@ distinct = distinct (accessor, d, t-class); oracle = harness integer calendar: e
     // History independence: an accessor is a function of its own (d, t) only.  Out-of-range and
     // in-range calls are interleaved on the same day count and across accessors.
     {
-        let n = ctx.tier.pick(40_000u64, 2_000_000u64);
+        let n = ctx.tier.pick(200_000u64, 2_000_000u64);
         let all: [Acc; 7] = [Acc::MessageHeader, Acc::RadialHeader, Acc::RadialModel, Acc::VolumeHeader, Acc::BypassMap, Acc::ClutterMapStatus, Acc::ClutterFilterMap];
         for i in 0..n {
             let d = match rng.below(4) {
